@@ -95,7 +95,7 @@ def generate(rng, tier):
                 qshape = []
             else:
                 # a batch: all in range except (maybe) one offending element at a chosen position
-                k = rng.choice([1, 2, 3, 5])
+                k = rng.choice([1, 2, 3, 5, 4, 6, 12])
                 qs = [[rng.choice(ins) for _ in range(k)] for ins in inside]
                 ok = True
                 if rng.random() < 0.7:
@@ -111,7 +111,8 @@ def generate(rng, tier):
                         others = [q for q, good in cand[ax2] if not good and q != bad and q == q]
                         if others:
                             qs[ax2][pos2] = rng.choice(others)
-                qshape = rng.choice([[k], [k], [1, k], [k, 1, 1]])
+                qshape = rng.choice({4: [[4], [2, 2], [2, 1, 2]], 6: [[6], [2, 3], [3, 2], [1, 2, 3]],
+                                     12: [[2, 3, 2], [3, 2, 2], [2, 2, 3], [12], [2, 3, 1, 2]]}.get(k, [[k], [k], [1, k], [k, 1, 1]]))
             dtag, qtag = gen.pick_dims(rng, r, len(qshape))
             if ent == "scalar":
                 dtag = "sta"
